@@ -141,7 +141,8 @@ fn check(c: &Case, modes: &[usize], evals: &mut u64) -> Result<usize, (String, S
             // irrelevant environment varies from run to run
             let env = vec![
                 ("HOME".to_string(), format!("/nonexistent-home-{}", run)),
-                ("TZ".to_string(), ["UTC", "America/New_York", "Asia/Tokyo", "Europe/Berlin", "Australia/Sydney"][run].to_string()),
+                // POSIX TZ strings: no time-zone database is needed for them to take effect
+                ("TZ".to_string(), ["UTC0", "EST5EDT", "JST-9", "CET-1CEST,M3.5.0,M10.5.0/3", "XYZ-10:30"][run].to_string()),
                 ("LANG".to_string(), ["C", "en_US.UTF-8", "de_DE.UTF-8", "C.UTF-8", "ja_JP.UTF-8"][run].to_string()),
                 (format!("GV_IRRELEVANT_{}", run), "x".repeat(run * 7)),
             ];
@@ -374,7 +375,88 @@ fn batch_case(u: &mut Choices, sz: Size) -> CaseResult {
     }
 }
 
+// ------------------------------------------------------------------------------------------------
+// functions whose result could depend on the environment (time zone, locale): same bytes and exit
+// status under every environment
+
+fn env_inputs() -> Vec<(String, String)> {
+    // (rules, data)
+    let mut v = vec![];
+    let stamps = [
+        "2024-08-21T00:00:00Z", "2024-08-21T00:00:00+02:00", "2024-08-21T00:00:00", "2024-08-21T00:00:00.5", "2024-08-21 00:00:00", "2024-08-21", "2024-03-31T02:30:00", "2024-10-27T02:30:00",
+        "1970-01-01T00:00:00", "Wed, 21 Aug 2024 00:00:00 +0200", "2024-08-21T00:00:00-00:00", "20240821T000000Z",
+    ];
+    for t in stamps {
+        v.push((format!("rule r {{\n  let e = parse_epoch(t)\n  %e > 1724000000\n}}\nrule s {{\n  let e = parse_epoch(t)\n  %e < 1724198400\n}}\n"), format!("{{\"t\": \"{}\"}}", t)));
+    }
+    for w in ["stra\u{df}e", "\u{130}stanbul I\u{131}", "\u{1c6}", "\u{e9}A", "TITLE i"] {
+        v.push(("rule r {\n  let u = to_upper(t)\n  let l = to_lower(t)\n  %u == %l\n  %u == 'X'\n  %l == /^[a-z]+$/\n}\n".to_string(), format!("{{\"t\": \"{}\"}}", w)));
+    }
+    for n in ["1,5", "1.5", "1 000", "1e3", "\u{661}\u{662}", "0x10", "1_000"] {
+        v.push(("rule r {\n  let f = parse_float(t)\n  %f > 1.2\n}\nrule i {\n  let n = parse_int(t)\n  %n > 1\n}\n".to_string(), format!("{{\"t\": \"{}\"}}", n)));
+    }
+    for (a, b) in [("a", "B"), ("\u{e4}", "z"), ("Z", "a"), ("i", "\u{131}")] {
+        v.push(("rule lt {\n  a < b\n}\nrule ge {\n  a >= b\n}\nrule re {\n  a == /(?i)^[a-z\u{e4}\u{131}]$/\n}\n".to_string(), format!("{{\"a\": \"{}\", \"b\": \"{}\"}}", a, b)));
+    }
+    v
+}
+
+fn env_case(i: usize) -> CaseResult {
+    let inputs = env_inputs();
+    let (rules, data) = &inputs[i];
+    let dir = fresh_dir("c05e");
+    let rp = dir.join("r.guard");
+    let dp = dir.join("d.json");
+    write_file(&rp, rules);
+    write_file(&dp, data);
+    let case = json!({"kind": "environment", "index": i, "rules": rules, "data": data});
+    let envs: Vec<Vec<(String, String)>> = vec![
+        vec![],
+        vec![("TZ".into(), "UTC0".into()), ("LANG".into(), "C".into())],
+        vec![("TZ".into(), "AAA10".into()), ("LANG".into(), "de_DE.UTF-8".into()), ("LC_ALL".into(), "de_DE.UTF-8".into())],
+        vec![("TZ".into(), "BBB-10".into()), ("LANG".into(), "tr_TR.UTF-8".into()), ("LC_ALL".into(), "tr_TR.UTF-8".into())],
+        vec![("TZ".into(), "CET-1CEST,M3.5.0,M10.5.0/3".into()), ("LC_NUMERIC".into(), "fr_FR.UTF-8".into()), ("HOME".into(), "/nonexistent".into())],
+        vec![("TZ".into(), "XYZ-5:45".into()), ("LANGUAGE".into(), "ja".into()), ("LC_CTYPE".into(), "POSIX".into())],
+    ];
+    let mut evals = 0;
+    for (mi, argv) in [vec!["validate", "-r", "{R}", "-d", "{D}", "-S", "all"], vec!["validate", "-r", "{R}", "-d", "{D}", "--structured", "-o", "json", "-S", "none"]].iter().enumerate() {
+        let a: Vec<String> = argv.iter().map(|x| x.replace("{R}", &rp.to_string_lossy()).replace("{D}", &dp.to_string_lossy())).collect();
+        let mut first: Option<Proc> = None;
+        for (k, env) in envs.iter().enumerate() {
+            evals += 1;
+            let p = spawn_tool(&a, b"", env, Some(&dir), 60);
+            if p.timed_out {
+                return CaseResult::Discard("watchdog");
+            }
+            if p.crashed() {
+                return CaseResult::Fail(Failure { msg: format!("environment #{}: crashed: {:?} {:?} {}", k, p.status, p.signal, p.err_s().chars().take(200).collect::<String>()), sig: "c05:env:crash".into(), case });
+            }
+            match &first {
+                None => first = Some(p),
+                Some(f) => {
+                    let same_out = if mi == 0 { lines(&f.out_s()) == lines(&p.out_s()) } else { f.out == p.out };
+                    if f.status != p.status || !same_out || f.err_s() != p.err_s() {
+                        return CaseResult::Fail(Failure {
+                            msg: format!("{}: with the environment {:?} exit status {:?} / output differ from the run with an empty environment change (exit {:?}); data {}", if mi == 0 { "validate -S all" } else { "validate --structured -o json" }, env, p.status, f.status, data),
+                            sig: "c05:env:differs".into(),
+                            case,
+                        });
+                    }
+                }
+            }
+        }
+    }
+    CaseResult::Pass(Info { nontrivial: true, key: hash_case(&[rules, data]), classes: vec!["environment".into()], evals, sample: if i % 7 == 0 { Some(case) } else { None } })
+}
+
 pub fn replay(case: &J) -> CaseResult {
+    if case["kind"] == "environment" {
+        let inputs = env_inputs();
+        return match inputs.iter().position(|(r, d)| Some(r.as_str()) == case["rules"].as_str() && Some(d.as_str()) == case["data"].as_str()) {
+            Some(i) => env_case(i),
+            None => CaseResult::Discard("unknown-environment-case"),
+        };
+    }
     if case["kind"] == "batch" {
         let strs = |k: &str| -> Vec<String> { case[k].as_array().map(|a| a.iter().filter_map(|x| x.as_str().map(String::from)).collect()).unwrap_or_default() };
         let mut ev = 0;
@@ -421,7 +503,7 @@ fn random_case(u: &mut Choices, sz: Size) -> CaseResult {
 
 pub fn run(tier: Tier, seed: u64) -> i32 {
     let spec = EvidenceSpec {
-        rule: "Random wide programs (>=3 rules incl. one failing type block per resource type with three failing clauses, unique messages) on CloudFormation-shaped templates with >=3 resources, plus a two-case test spec. Every case is run 5 times as a fresh process of the real cfn-guard binary in each of 16 modes (validate: console -S all, -o json, -o yaml, --structured json/yaml/junit/sarif, -v, -p; test: console, json, yaml, junit; parse-tree -p / -y; rulegen) with HOME, TZ, LANG, the working directory and an extra variable changed between runs: equal exit status; structured outputs byte-identical (JUnit after masking time=\"..\"); console / plain-text outputs identical as multisets of lines; -p output split into the console part (multiset) and the JSON record (bytes). Additionally 5 in-process evaluations (run_checks verbose / non-verbose, validate --payload --structured sarif) interleaved with another case must be byte-identical. Stage 'batch' (in process): a generated rule file x 2-3 documents (variants of one another) given to ONE validate --structured -o json invocation must report, as a multiset of file reports and in its exit code, exactly what the (rule file, document) pairs report when each is evaluated by an invocation of its own. Non-trivial (processes): >=3 rules and >=8 modes with multi-line output; distinct by hash of rules and data.".into(),
+        rule: "Random wide programs (>=3 rules incl. one failing type block per resource type with three failing clauses, unique messages) on CloudFormation-shaped templates with >=3 resources, plus a two-case test spec. Every case is run 5 times as a fresh process of the real cfn-guard binary in each of 16 modes (validate: console -S all, -o json, -o yaml, --structured json/yaml/junit/sarif, -v, -p; test: console, json, yaml, junit; parse-tree -p / -y; rulegen) with HOME, TZ, LANG, the working directory and an extra variable changed between runs: equal exit status; structured outputs byte-identical (JUnit after masking time=\"..\"); console / plain-text outputs identical as multisets of lines; -p output split into the console part (multiset) and the JSON record (bytes). Additionally 5 in-process evaluations (run_checks verbose / non-verbose, validate --payload --structured sarif) interleaved with another case must be byte-identical. Stage 'environment': 28 fixed programs using functions and operators whose result could depend on the time zone or locale (parse_epoch on timestamps with and without offset, to_upper / to_lower on non-ASCII text, parse_float / parse_int on locale-formatted numbers, string ordering, case-insensitive regexes) run through the real binary under 6 environments (TZ as POSIX strings, LANG / LC_* / LANGUAGE, HOME): same exit status, stderr and output. Stage 'batch' (in process): a generated rule file x 2-3 documents (variants of one another) given to ONE validate --structured -o json invocation must report, as a multiset of file reports and in its exit code, exactly what the (rule file, document) pairs report when each is evaluated by an invocation of its own. Non-trivial (processes): >=3 rules and >=8 modes with multi-line output; distinct by hash of rules and data.".into(),
         assumptions: vec![
             "colour-control variables (NO_COLOR) are held fixed: a documented feature of the colored crate".into(),
             "five runs miss an order leak over n>=3 entries with probability <= (1/6)^4 per case".into(),
@@ -430,6 +512,7 @@ pub fn run(tier: Tier, seed: u64) -> i32 {
     execute("C05", tier, seed, spec, &replay, &|run: &Session| {
         let sz = tier.pick(Size::quick(), Size::thorough());
         run.shrink_iters.store(40, std::sync::atomic::Ordering::Relaxed);
+        run.run_enum("environment", env_inputs().len(), env_case);
         run.run_random("processes", tier.pick(48, 1200), 2500, |u| random_case(u, sz));
         run.shrink_iters.store(1500, std::sync::atomic::Ordering::Relaxed);
         run.run_random("batch", tier.pick(8_000, 200_000), tier.pick(2000, 3200), |u| batch_case(u, sz));
